@@ -24,7 +24,7 @@ ASSUMPTIONS = ['floats as reals (the "to rounding" clause of the property is out
                'Inv deliberately does not constrain max_weight_count (a stale-high maximum only costs speed)',
                'increments are >= 0 as in the property statement (negative increments are outside it)']
 OPS = ['insert_new', 'insert_existing', 'update_new', 'update_existing', 'remove', 'recompute_total', 'none']
-MUST_EVALUATE = {'quick': ['inv:max>=weights', 'inv:total=sum', 'inv:positions', 'accept-threshold', 'accept-prob-in-[0,1]',
+MUST_EVALUATE = {'quick': ['inv:no-stale-weight', 'inv:max>=weights', 'inv:total=sum', 'inv:positions', 'accept-threshold', 'accept-prob-in-[0,1]',
                            'zero-weight-never-selected', 'total_weight()=sum', 'proposal-uniform-over-items',
                            'empty-set-total-is-zero', 'nonempty-total-positive', 'total-within-rounding-of-sum',
                            'random_removal-removes-the-selected', 'unweighted-uniform-over-items', 'unweighted-total=count']}
@@ -217,6 +217,14 @@ def check_inv(h, ld, tag=''):
         h.fail('inv:positions', {'items': [str(i) for i in items], 'pos': {str(a): b for a, b in ld.item_to_position.items()},
                                  'wkeys': [str(a) for a in ld.weight.keys()], 'at': tag})
         return False
+    # no stale weights: the weight table is a defaultdict that increments add to, so an entry left behind for a removed candidate
+    # would be stacked onto when that candidate comes back
+    stale = [k for k in list(ld.weight.keys()) if k not in ld.item_to_position]
+    for k in stale:
+        if not h.require('inv:no-stale-weight', EQ(ld.weight[k], 0), {'candidate_not_in_set': str(k), 'weight_left_behind': show(ld.weight[k]), 'at': tag}):
+            return False
+    if not stale:
+        h.require('inv:no-stale-weight', True)
     tot = 0
     good = True
     for it in items:
